@@ -113,7 +113,7 @@ def check(prog, run, reps=None, only_reattach=False):
                 run.violation("primary-commands-everywhere", "%s.%s" % (s, name), "command set %s lacks %s" % (s, name),
                               prog.rel(mod), None)
 
-    def attach(entry, byte0, prior=None):
+    def attach(entry, byte0, prior=None, blocksize=None):
         """returns list of (selected set name, n_execute, cdb cells, facade attrs)"""
         out = []
         si = StandIn(prog, check_condition="never", device_bytes=device_bytes_for(byte0)).install()
@@ -122,10 +122,10 @@ def check(prog, run, reps=None, only_reattach=False):
                 dev = fresh_device(prog)
                 dev.attrs["_opcodes"] = tables[reffacade.DEFAULT_SET]
                 if entry == "init":
-                    s = I.instantiate(scsi_cls, [dev], {}, None, _F())
+                    s = I.instantiate(scsi_cls, [dev], {} if blocksize is None else {"blocksize": blocksize}, None, _F())
                 else:
                     s = Instance(scsi_cls)
-                    s.attrs["_blocksize"] = 0
+                    s.attrs["_blocksize"] = 0 if blocksize is None else blocksize
                     s.attrs["device"] = prior
                     I.call_function(callf, [s, dev], {}, None, _F())
                 calls = [e for e in I.events if e["kind"] == "external-call" and e["name"] == "sgio.execute"]
@@ -143,6 +143,15 @@ def check(prog, run, reps=None, only_reattach=False):
             dt = byte0 & 0x1F
             want = reffacade.DEVICE_TYPE_SET.get(dt)
             ps = attach(entry, byte0)
+            if byte0 < 32:
+                # the selection is a function of the device's answer alone: a facade created with a block size selects the same
+                ps_bs = attach(entry, byte0, blocksize=512)
+                sel = lambda plist: sorted(set(byid.get(id(p.value[1].attrs.get("_opcodes"))) or "?" for p in plist if p.returned))
+                if sel(ps) != sel(ps_bs):
+                    run.violation("device-type-selects-set", "SCSI.%s device type %#04x, facade with a block size" % ("__init__" if entry == "init" else "__call__", dt),
+                                  "a facade created with blocksize=512 selects %s for device type %#04x, one created without selects %s: the "
+                                  "selection must follow from the reported device type alone" % (sel(ps_bs), dt, sel(ps)), file, fn.node.lineno, fn.qualname)
+                ps = ps + ps_bs
             c = "SCSI.%s device type %#04x" % ("__init__" if entry == "init" else "__call__", dt)
             for p in ps:
                 if not p.returned:
